@@ -26,7 +26,7 @@ use crate::{
     },
     schemes::algorithms::CL03,
     schemes::generics::{Commitment, PoKSignature, ZKPoK},
-    utils::message::cl03_message::CL03Message,
+    utils::{message::cl03_message::CL03Message, random::random_bits},
 };
 use digest::{Digest};
 use rug::{ops::Pow, Integer};
@@ -64,7 +64,7 @@ impl<CS: CLCiphersuite> PoKSignature<CL03<CS>> {
         let min_x = Integer::from(0);
         let max_x = Integer::from(2).pow(CS::lm) - 1;
 
-        let (spok, Ce) = NISPSignaturePoK::nisp5_MultiAttr_generate_proof::<CS>(
+        let (spok, Ce, Cx) = NISPSignaturePoK::nisp5_MultiAttr_generate_proof::<CS>(
             signature,
             commitment_pk,
             signer_pk,
@@ -88,20 +88,28 @@ impl<CS: CLCiphersuite> PoKSignature<CL03<CS>> {
 
         let mut proofs_mi: Vec<ProofOfValue> = Vec::new();
         let mut r_proofs_mi: Vec<Boudot2000RangeProof> = Vec::new();
-        for i in unrevealed_message_indexes {
+        // The per-attribute commitments are tied to Cx (the commitment the signature proof is about): their randomness
+        // adds up to the randomness of Cx, so that Cx = prod cmi * prod_{revealed} g_i^{m_i} and the verifier can check it.
+        let mut randomness_left = Cx.randomness.clone();
+        for (k, i) in unrevealed_message_indexes.iter().enumerate() {
             let mi = messages
                 .get(*i)
                 .expect("unrevealed_message_indexes not valid with respect to the messages!");
             let gi = &commitment_pk.g_bases.get(*i).expect(
                 "unrevealed_message_indexes not valid with respect to the commitment_pk.g_bases!",
             );
-            let cmi = Commitment::<CL03<CS>>::commit_with_commitment_pk(
-                messages,
-                commitment_pk,
-                Some(&[*i]),
-            )
-            .cl03Commitment()
-            .to_owned();
+            let ri = if k + 1 == unrevealed_message_indexes.len() {
+                randomness_left.clone()
+            } else {
+                random_bits(CS::ln)
+            };
+            randomness_left -= &ri;
+            let cmi = CL03Commitment {
+                value: (Integer::from(gi.pow_mod_ref(&mi.value, &commitment_pk.N).unwrap())
+                    * Integer::from(commitment_pk.h.pow_mod_ref(&ri, &commitment_pk.N).unwrap()))
+                    % &commitment_pk.N,
+                randomness: ri,
+            };
             let proof_mi_ri = NISPSecrets::nisp2sec_generate_proof::<CS>(
                 mi,
                 &cmi,
@@ -239,6 +247,32 @@ impl<CS: CLCiphersuite> PoKSignature<CL03<CS>> {
                     }
                     idx += 1;
                 }
+                // the per-attribute commitments must be about the attributes of Cx: together with the revealed attributes
+                // they multiply to Cx (their randomness adds up to that of Cx)
+                if !unrevealed_message_indexes.is_empty() {
+                    let N = &commitment_pk.N;
+                    let mut product = Integer::from(1);
+                    for p in &CLSPoK.proofs_commited_mi {
+                        product = (product * &p.commitment) % N;
+                    }
+                    let mut idx_revealed = 0usize;
+                    for i in 0..n_signed_messages {
+                        if !unrevealed_message_indexes.contains(&i) {
+                            let gi = match commitment_pk.g_bases.get(i) {
+                                Some(g) => g,
+                                None => return false,
+                            };
+                            product = (product
+                                * Integer::from(gi.pow_mod_ref(&messages[idx_revealed].value, N).unwrap()))
+                                % N;
+                            idx_revealed += 1;
+                        }
+                    }
+                    if product != CLSPoK.spok.Cx {
+                        println!("The commitments to the hidden attributes are not about the attributes of Cx!");
+                        return false;
+                    }
+                }
             } else {
                 println!("Range proof verification on e Failed!");
                 return false;
@@ -312,7 +346,10 @@ impl<CS: CLCiphersuite> ZKPoK<CL03<CS>> {
         //RANGE PROOF on unrevealde messages
         let mut proofs_mi: Vec<ProofOfValue> = Vec::new();
         let mut r_proofs_msgs: Vec<Boudot2000RangeProof> = Vec::new();
-        for i in unrevealed_message_indexes {
+        // The per-attribute commitments are tied to C: their randomness adds up to the randomness of C, so that
+        // C = prod cmi and the issuer can check it.
+        let mut randomness_left = C.randomness.clone();
+        for (k, i) in unrevealed_message_indexes.iter().enumerate() {
             let mi = messages
                 .get(*i)
                 .expect("unreaveled_message_indexes not valid with respect to the messages!");
@@ -320,10 +357,18 @@ impl<CS: CLCiphersuite> ZKPoK<CL03<CS>> {
                 "unreaveled_message_indexes not valid with respect to the commitment_pk.g_bases!",
             );
             // commit m_i with its own base a_i: that is the base the proof below and the verifier use
-            let cmi =
-                Commitment::<CL03<CS>>::commit_with_pk(messages, signer_pk, a_bases, Some(&[*i]))
-                    .cl03Commitment()
-                    .to_owned();
+            let ri = if k + 1 == unrevealed_message_indexes.len() {
+                randomness_left.clone()
+            } else {
+                random_bits(CS::ln)
+            };
+            randomness_left -= &ri;
+            let cmi = CL03Commitment {
+                value: (Integer::from(ai.pow_mod_ref(&mi.value, &signer_pk.N).unwrap())
+                    * Integer::from(signer_pk.b.pow_mod_ref(&ri, &signer_pk.N).unwrap()))
+                    % &signer_pk.N,
+                randomness: ri,
+            };
             let proof_mi = NISPSecrets::nisp2sec_generate_proof::<CS>(
                 mi,
                 &cmi,
@@ -497,6 +542,19 @@ impl<CS: CLCiphersuite> ZKPoK<CL03<CS>> {
             }
 
             idx += 1;
+        }
+
+        // the per-attribute commitments must be about the attributes committed in C: they multiply to C (their randomness
+        // adds up to that of C)
+        if !unrevealed_message_indexes.is_empty() {
+            let mut product = Integer::from(1);
+            for p in &zkpok.proofs_commited_mi {
+                product = (product * &p.commitment) % &signer_pk.N;
+            }
+            if product != C.value {
+                println!("The commitments to the hidden attributes are not about the attributes committed in C!");
+                return false;
+            }
         }
 
         let boolean_proof_r = zkpok.proof_r.value.nisp2sec_verify_proof::<CS>(
